@@ -17,7 +17,9 @@ rev_path = os.path.join(VERIF, "tables", "reviewed_safe.json")
 reviewed = json.load(open(rev_path)) if os.path.exists(rev_path) else []
 known_path = os.path.join(VERIF, "known_findings.txt")
 known_lines = open(known_path).read().splitlines() if os.path.exists(known_path) else []
-have_rev = {(e.get("property"), e["key"]) for e in reviewed}
+have_rev = {}
+for e in reviewed:
+    have_rev[e["key"]] = e
 have_known = {l for l in known_lines}
 unmatched = []
 for key, n in sorted(counts.items()):
@@ -31,8 +33,15 @@ for key, n in sorted(counts.items()):
         continue
     kind, text = disp
     if kind == "reviewed":
-        if (prop, key) not in have_rev:
-            reviewed.append({"property": prop, "key": key, "count": n, "reason": text})
+        e = have_rev.get(key)
+        if e is None:
+            e = {"properties": [prop], "key": key, "count": n, "reason": text}
+            reviewed.append(e)
+            have_rev[key] = e
+        else:
+            if prop not in e["properties"]:
+                e["properties"].append(prop)
+            e["count"] = max(e["count"], n)
     else:
         line = "known: property=%s key=%s count=%d what=%s" % (prop, key, n, text)
         if line not in have_known:
